@@ -7,29 +7,42 @@ ROOT = os.path.dirname(os.path.dirname(os.path.abspath(__file__)))
 BASE = ("cd /repo && /venv/bin/python -m pytest -ra -q -p no:cacheprovider --timeout=900 "
         "--continue-on-collection-errors")
 
-# pid -> (technique, level text, level note, design_ref)
-META = {
-    "C28": ("TLC-enumerated call histories of VirtualTime.tla replayed stepwise on the three real virtual-time schedulers",
-            "TLC checks order/clock/advance invariants on every state of the bounded history space of VirtualTime.tla and exports "
-            "every history with its allowed observations; each is performed on VirtualTimeScheduler, TestScheduler and "
-            "HistoricalScheduler and the per-command clock and run log must be one the spec allows. Exhaustive up to the stated "
-            "command budget, simulated beyond it.",
-            "TLC 1.8; the replayer's command codec; tick = 1 s", "DESIGN.md 6 C28, D.4"),
-    "C29": ("TLC liveness check of the run loop (VirtualTime.tla with the spin nudge, Spin.tla) + exported histories and at-scale same-instant batches performed on the real schedulers under a watchdog",
-            "TLC checks <>[](driver returned) under weak fairness on the run-loop model with the clock nudge enabled, and on Spin.tla "
-            "(n = k*limit+delta same-instant actions, self-rescheduling, restart); every exported history is performed with the spin "
-            "limit patched to 1 and every Spin scenario with limits 1, 2 and the real 100 on numeric and datetime clocks; a driver "
-            "call that does not return within the watchdog (confirmed by a longer retry) is a violation.",
-            "TLC 1.8; watchdog = wall clock (5 s, confirmed with 20-40 s); MAX_SPINNING patched as a module attribute for the small variants", "DESIGN.md 6 C29"),
-}
+def load_meta():
+    """props/<id>.py declares META = dict(technique=..., level=..., note=..., ref=...[, category=...]) as a literal."""
+    import ast
+    import glob
+    out = {}
+    for path in sorted(glob.glob(os.path.join(ROOT, "props", "C[0-9][0-9].py"))):
+        pid = os.path.basename(path)[:-3]
+        try:
+            tree = ast.parse(open(path).read())
+        except SyntaxError:
+            continue
+        for node in tree.body:
+            if isinstance(node, ast.Assign) and any(isinstance(t, ast.Name) and t.id == "META" for t in node.targets):
+                try:
+                    out[pid] = ast.literal_eval(node.value)
+                except Exception:
+                    pass
+    return out
+
+
+def load_na():
+    try:
+        return json.load(open(os.path.join(ROOT, "not_applicable.json")))
+    except FileNotFoundError:
+        return {}
 
 
 def build():
     props = [json.loads(l)["id"] for l in open(os.path.join(ROOT, "properties.jsonl"))]
     checks, na = [], []
+    META = load_meta()
+    NA = load_na()
     for pid in props:
-        if pid in META and os.path.exists(os.path.join(ROOT, "props", pid + ".py")):
-            tech, text, note, ref = META[pid]
+        if pid in META and pid not in NA:
+            m = META[pid]
+            tech, text, note, ref = m["technique"], m["level"], m["note"], m.get("ref", "DESIGN.md 6 " + pid)
             checks.append({
                 "property_id": pid,
                 "quick_cmd": f"./check {pid} --tier quick",
@@ -37,12 +50,12 @@ def build():
                 "evidence_file": f"/verif/evidence/{pid}.json",
                 "replay_cmd_template": f"./check {pid} --replay {{path}}",
                 "engine": "tla-binding",
-                "level_claimed": {"category": "model_checking", "text": text, "design_ref": ref},
+                "level_claimed": {"category": m.get("category", "model_checking"), "text": text, "design_ref": ref},
                 "level_note": note,
                 "technique": tech,
             })
         else:
-            na.append({"property_id": pid, "reason": "check not built yet in this round (planned in DESIGN.md section 6); not claimed"})
+            na.append({"property_id": pid, "reason": NA.get(pid, "check not built yet (planned in DESIGN.md section 6); not claimed")})
     man = {
         "version": 1,
         "setup_cmd": "./check setup",
